@@ -208,12 +208,44 @@ def lift_order():
     return out
 
 
+def positions_and_codata():
+    """(i) name reuse where the rebound name is NOT the first of a simultaneous renaming: non-first parameters,
+    second pattern variables, with an earlier binder that is not rebound; (ii) codata-typed bindings whose bound term
+    has an effect and may never yield a value (consumer first at codata types); (iii) self-application and closures
+    passed to their own destructors; (iv) the same variable several times in one argument list"""
+    out = []
+    extra = ("codata U { app(u: U): i64 }\n"
+             "def pickp(n: i64, x: i64, l: List[i64]): i64 { l.case[i64] { Nil => n, Cons(x, xs) => x } }\n"
+             "def pickq(n: i64, x: i64, y: i64, p: Pair[i64, i64]): i64 { p.case[i64, i64] { Tup(w, y) => (x - y) + n } }\n"
+             "def pickr(x: i64, y: i64, f: Fun[i64, i64]): i64 { (new { apply(y) => y - x }.apply[i64, i64](f.apply[i64, i64](y))) + y }\n"
+             "def picks(n: i64, x: i64, l: List[i64]): i64 { l.case[i64] { Nil => n, Cons(h, x) => x.case[i64] { Nil => h - n, Cons(n, t) => n + h } } }\n")
+    out.append({'name': 'pos/param2-clause1', 'src': prog("pickp(a, b, Cons(a - b, Nil)) + pickp(1, a, Nil)", extra_defs=extra)})
+    out.append({'name': 'pos/param3-clause2', 'src': prog("pickq(a, b, 7, Tup(b, a - 1))", extra_defs=extra)})
+    out.append({'name': 'pos/param2-cocase', 'src': prog("pickr(a, b, new { apply(x) => x * 2 })", extra_defs=extra)})
+    out.append({'name': 'pos/nested-patterns', 'src': prog("picks(a, b, Cons(b, Cons(a - b, Nil))) + picks(a, b, Cons(3, Nil))", extra_defs=extra)})
+    out.append({'name': 'pos/outer-clause2-inner-clause1', 'src': prog("Tup(a, b).case[i64, i64] { Tup(w, v) => (Cons(w - v, Nil).case[i64] { Nil => v, Cons(v, r) => v + w }) - v }", extra_defs=extra)})
+    # codata bindings with effects
+    out.append({'name': 'codata-eff/print-exit-unused', 'src': prog("let f: Fun[i64, i64] = (println_i64(a); exit b); println_i64(b); 0", extra_defs=extra)})
+    out.append({'name': 'codata-eff/print-exit-used', 'src': prog("let f: Fun[i64, i64] = (println_i64(a); exit b); println_i64(b); f.apply[i64, i64](1)", extra_defs=extra)})
+    out.append({'name': 'codata-eff/print-value-used-twice', 'src': prog("let f: Fun[i64, i64] = (println_i64(a); new { apply(x) => x + b }); println_i64(b); (f.apply[i64, i64](1)) + (f.apply[i64, i64](2))", extra_defs=extra)})
+    out.append({'name': 'codata-eff/goto', 'src': prog("(label k { let x: Fun[i64, i64] = (println_i64(a); goto k (new { apply(z) => z + 100 })); println_i64(b); new { apply(z) => z + 200 } }).apply[i64, i64](a)", extra_defs=extra)})
+    out.append({'name': 'codata-eff/if-exit-goto', 'src': prog("(label k { let x: Stream[i64] = (if a == 0 { exit 3 } else { goto k (nats(b)) }); println_i64(7); nats(a) }).head[i64]", extra_defs=extra)})
+    out.append({'name': 'codata-eff/stream-head', 'src': prog("let s: Stream[i64] = new { head => (println_i64(a); a), tail => nats(b) }; println_i64(b); (s.head[i64]) + (s.head[i64])", extra_defs=extra)})
+    # self-application, closures passed to their own methods, repeated arguments
+    out.append({'name': 'self/app-captured', 'src': prog("let u: U = new { app(v) => a }; u.app(u)", extra_defs=extra)})
+    out.append({'name': 'self/app-twice', 'src': prog("let u: U = new { app(v) => (v.app(new { app(w) => b })) + a }; (u.app(u)) - b", extra_defs=extra)})
+    out.append({'name': 'self/fun-of-fun', 'src': prog("let f: Fun[i64, i64] = new { apply(x) => x + a }; sub2(f.apply[i64, i64](b), f.apply[i64, i64](b))", extra_defs=extra)})
+    out.append({'name': 'dup/args', 'src': prog("add3(a, a, a) + (sub2(b, b) + sum(Cons(a, Cons(a, Cons(b, Cons(a, Nil))))))", extra_defs=extra)})
+    out.append({'name': 'dup/ctor-obj', 'src': prog("let l: List[i64] = Cons(a, Nil); let p: Pair[i64, i64] = Tup(sum(l), sum(l)); p.case[i64, i64] { Tup(x, y) => (x + y) + sum(l) }", extra_defs=extra)})
+    return out
+
+
 def all_programs(tier='quick'):
     ps = name_reuse(("v", "x0") if tier == 'quick' else ("v", "x0", "a0", "x")) + generated_names() + effects_in_arguments() + cut_shapes() + live_variables()
-    return ps + fresh_clash() + lift_order()
+    return ps + fresh_clash() + lift_order() + positions_and_codata()
 
 
 def effect_sequenced(tier='quick'):
     """programs inside the fragment where Fun's evaluation order is unambiguous (C01, C02): no effects in call /
     constructor / destructor / operator arguments and no effects under codata-typed bindings"""
-    return name_reuse(("v", "x0") if tier == 'quick' else ("v", "x0", "a0", "x")) + generated_names() + cut_shapes() + live_variables() + fresh_clash() + lift_order()
+    return name_reuse(("v", "x0") if tier == 'quick' else ("v", "x0", "a0", "x")) + generated_names() + cut_shapes() + live_variables() + fresh_clash() + lift_order() + [p for p in positions_and_codata() if not p['name'].startswith('codata-eff')]
